@@ -3,6 +3,8 @@ import Driver.OpsAlgo
 import Driver.OpsMachines
 import Driver.OpsComb
 import Driver.OpsViz
+import Driver.OpsSerial
+import Driver.OpsBounds
 /-
   Line protocol driver: one JSON scenario per input line, one JSON answer per output line.
 -/
@@ -25,6 +27,9 @@ def handle (j : Json) : M Json := do
   | "greedy" => opGreedy j
   | "winnable_hist" => opWinnableHist j
   | "elements" => opElements j
+  | "rt" => opRt j
+  | "bounds" => opBounds j
+  | "closed" => opClosed j
   | "parking" => opParking j
   | "parking_gen" => opParkingGen j
   | "superstable_count" => opSuperstableCount j
